@@ -79,7 +79,7 @@ impl Kind {
     }
 }
 
-async fn sleep(kind: Kind, d: Duration) {
+pub(crate) async fn sleep(kind: Kind, d: Duration) {
     match kind {
         Kind::Smol => {
             smol::Timer::after(d).await;
